@@ -77,6 +77,8 @@ def presentation_variants(d, rng):
         d = case_species(d, rng)
     if d.get("leafsyn") and rng.random() < 0.15:
         d = rename_families(d, rng)
+    if rng.random() < 0.2:
+        d["ctor"] = rng.randrange(1, 1000)      # built through the constructor: shuffled mapping keys, defaultdict container
     return d
 
 
